@@ -199,7 +199,14 @@ func hC09Resp() {
 	}
 	n := verifChoose("streamLen", maxN+1)
 	data := symbolicStream("wire", n)
-	endMode := verifChoose("end", 3) // 0 valid end, 1 no end at all, 2 truncated end
+	endMode := verifChoose("end", 4) // 0 valid end, 1 no end at all, 2 truncated end, 3 valid end followed by stray bytes in the same Write
+	stray := []byte(nil)
+	if endMode == 3 {
+		if target == ProtocolGRPC {
+			return
+		}
+		stray = nondetBytes("stray", verifChoose("strayLen", 2)+1)
+	}
 	var endFrame []byte
 	switch target {
 	case ProtocolGRPCWeb:
@@ -226,7 +233,9 @@ func hC09Resp() {
 			}
 			return
 		}
-		if endMode != 1 {
+		if endMode == 3 {
+			w.Write(append(append([]byte(nil), endFrame...), stray...))
+		} else if endMode != 1 {
 			w.Write(endFrame)
 		}
 	})
@@ -236,6 +245,21 @@ func hC09Resp() {
 	full := append([]byte(nil), data...)
 	if target != ProtocolGRPC && endMode != 1 {
 		full = append(full, endFrame...)
+	}
+	if endMode == 3 {
+		// bytes after the end of the stream: the response before them decides the outcome; what must hold
+		// here is that nothing crashes and the client still gets one well-formed outcome
+		out := refParseClientResponse(cfg, p.sink, true)
+		dframes, dcomplete := refSplitFrames(data)
+		plain := dcomplete
+		for _, f := range dframes {
+			plain = plain && f.flags == 0
+		}
+		verifReach("stray-bytes-after-end")
+		if plain {
+			verifAssert(out.valid, "C09: bytes after the end of the stream do not corrupt the response")
+		}
+		return
 	}
 	frames, complete := refSplitFrames(full)
 	endFlag := byte(0xff)
